@@ -149,6 +149,29 @@ static ASMJIT_INLINE bool is_zmm_or_m512(const Operand_& op) noexcept {
   return op.is_vec512() || (op.is_mem() && op.as<Mem>().size() == 64);
 }
 
+// 16-bit addressing (32-bit mode with address-size override) has only [BX|BP|SI|DI] and [BX|BP + SI|DI] forms without scale.
+static ASMJIT_INLINE bool is_valid_address_16(const Mem& m) noexcept {
+  auto is_bx_or_bp = [](uint32_t id) noexcept { return id == Gp::kIdBx || id == Gp::kIdBp; };
+  auto is_si_or_di = [](uint32_t id) noexcept { return id == Gp::kIdSi || id == Gp::kIdDi; };
+
+  bool has_base = m.base_type() != RegType::kNone;
+  bool has_index = m.index_type() != RegType::kNone;
+
+  if ((has_base && m.base_type() != RegType::kGp16) || (has_index && m.index_type() != RegType::kGp16) || m.shift() != 0) {
+    return false;
+  }
+
+  uint32_t b = m.base_id();
+  uint32_t i = m.index_id();
+
+  if (has_base && has_index) {
+    return (b >= Operand::kVirtIdMin || i >= Operand::kVirtIdMin) || (is_bx_or_bp(b) && is_si_or_di(i)) || (is_si_or_di(b) && is_bx_or_bp(i));
+  }
+
+  uint32_t r = has_base ? b : i;
+  return r >= Operand::kVirtIdMin || is_bx_or_bp(r) || is_si_or_di(r);
+}
+
 static ASMJIT_INLINE bool check_op_sig(const InstDB::OpSignature& op, const InstDB::OpSignature& ref, bool& imm_out_of_range) noexcept {
   // Fail if operand types are incompatible.
   InstDB::OpFlags common_flags = op.flags() & ref.flags();
@@ -463,6 +486,12 @@ static ASMJIT_FAVOR_SIZE Error validate(InstDB::Mode mode, const BaseInst& inst,
 
           // Only used for implicit memory operands having 'seg:[reg]' form, so clear it.
           reg_mask = 0;
+        }
+
+        if ((base_type == RegType::kGp16 || index_type == RegType::kGp16) && !m.is_reg_home()) {
+          if (ASMJIT_UNLIKELY(!is_valid_address_16(m))) {
+            return make_error(Error::kInvalidAddress);
+          }
         }
 
         switch (mem_size) {
